@@ -229,7 +229,11 @@ def map_units(func_path, names=None, extra=None, include_witness=False, config="
             continue
         if names is not None and name not in names:
             continue
-        if config == "opencl":
+        if config == "opencl-f32":
+            if not meta.get("f32_cl_unit"):
+                raise AnalysisError("generator produced no single-precision OpenCL source for %s" % name)
+            jobs.append((func_path, name + "@opencl-f32", meta["f32_cl_unit"], meta, extra))
+        elif config == "opencl":
             if not meta.get("cl_unit"):
                 raise AnalysisError("generator produced no OpenCL source for %s" % name)
             jobs.append((func_path, name + "@opencl", meta["cl_unit"], meta, extra))
